@@ -25,6 +25,7 @@ JudgeRet(e) ==
   ELSE IF ~real /\ e.cls # "none" THEN "NoOp"
   ELSE IF isq /\ e.cls # "str" THEN "QueryReturnsText"
   ELSE IF isq /\ conf /\ Tok(e.tok) # DataTok(n, plan.blank) THEN "ReturnsOwnLine"
+  ELSE IF isq /\ plan.fault = "rNraise" /\ plan.d1 <= R /\ confPrev /\ Tok(e.tok) # DataTok(n, plan.blank) THEN "ReturnsOwnLine"
   ELSE IF conf /\ rxq # <<>> THEN "Aligned"
   ELSE IF isq /\ plan.fault \in {"silent", "wraise", "r1raise"} /\ rxq = <<>> /\ confPrev /\ Tok(e.tok) # Empty THEN "EmptyWhenSilent"
   ELSE "ok"
